@@ -18,7 +18,7 @@
    refines_u a b           a = b, or a = Err Missing, or b = Err Missing                                              *)
 From Coq Require Import ZArith QArith Bool List.
 Require Import QV.C03.Model QV.C03.Spec QV.C03.Proofs QV.C03.Proofs2 QV.C03.Proofs3 QV.C03.Proofs4 QV.C03.Proofs5
-               QV.C03.Proofs6 QV.C03.Proofs7 QV.C03.Proofs8 QV.C03.Proofs9.
+               QV.C03.Proofs6 QV.C03.Proofs7 QV.C03.Proofs8 QV.C03.Proofs9 QV.C03.Proofs10.
 
 Theorem C03_construct_wf : forall u, uok u -> wf (construct u).
 Proof. exact construct_wf. Qed.
@@ -122,3 +122,37 @@ Theorem C03_missing_refuted : exists u values drop b, uok u /\
   none_missing u (lookup (SDict values)) drop = false /\ create_program u values drop = Ok b.
 Proof. exact missing_refuted. Qed.
 Print Assumptions C03_missing_refuted.
+
+(* (d), guard tightened (round 5): the guard is needed only where the ideal verdict is "missing value"; when an earlier
+   obligation is violated / ill-formed, no function atom behind it matters.  (What is still excluded although harmless:
+   Proofs10.ex_guard_overapprox.) *)
+Theorem C03_missing_tight : forall u values drop b, uok u ->
+  (guard_C03_function_zero u (lookup (SDict values)) drop = true
+   \/ verdict u (lookup (SDict values)) drop <> Err Missing) ->
+  none_missing u (lookup (SDict values)) drop = false -> create_program u values drop <> Ok b.
+Proof. exact user_missing_tight. Qed.
+Print Assumptions C03_missing_tight.
+
+(* ---- the helper functions that the operational model AND the specification use (Model.v: zrange, ren_drop, kept,
+   adrop) characterised on their own: loop index values = Python's range; which inner channels a renaming MappingPT
+   drops; which overwriting values / atoms are kept.  No theorem above looks inside them. ---- *)
+Theorem C03_range_values : forall a b st v, (st <> 0)%Z ->
+  (In v (zrange a b st) <-> exists k, (0 <= k /\ v = a + k * st /\ (if 0 <? st then v < b else b < v))%Z).
+Proof. exact zrange_spec. Qed.
+Print Assumptions C03_range_values.
+
+Theorem C03_range_order : forall a b st k, (k < length (zrange a b st))%nat ->
+  nth k (zrange a b st) 0%Z = (a + Z.of_nat k * st)%Z.
+Proof. exact zrange_nth. Qed.
+Print Assumptions C03_range_order.
+
+Theorem C03_channel_drop : forall r dr c,
+  In c (ren_drop r dr) <->
+  (In c dr /\ assoc c r = None) \/
+  (exists t, In (c, t) r /\ match t with Some o => In o dr | None => True end).
+Proof. exact ren_drop_spec. Qed.
+Print Assumptions C03_channel_drop.
+
+Theorem C03_kept_values : forall dr l e, In e (kept dr l) <-> exists c, In (c, e) l /\ ~ In c dr.
+Proof. exact kept_spec. Qed.
+Print Assumptions C03_kept_values.
